@@ -562,7 +562,7 @@ func checkGo(c goCase) harness.Outcome {
 var goFacet = harness.Register(&harness.Facet[goCase]{
 	Name: "go-roundtrip",
 	Rule: "rapid: a Go value described by a (type, literal) tree - bool; every int/uint width at 0, ±1, width bounds and neighbours, 2^53±1/±2, non-double 64-bit values, random; float32/float64 from the boundary pool incl. -0, subnormals, NaN, ±Inf; valid UTF-8 strings over ASCII/Latin-1/BMP (U+FFFD)/astral alphabets and numeric-looking strings; nil; named scalar types; pointers to scalars; []interface{} / map[string]interface{} nested to depth 3; typed slices, maps, arrays, structs (tagged, unexported, embedded fields) and pointers to them, nil vs empty - handed to otto along a drawn route (Otto.Set/Get, Object.Set/Get, Otto.ToValue, otto.ToValue, call argument, native function result); oracle: Export deep-equals a fresh materialisation (float32 may widen), To* equal the ES5 conversions of the JavaScript counterpart, MarshalJSON denotes encoding/json's tree, a script sees the counterpart element-wise (typeof, ===, sign of zero, length in UTF-16 units, for-in key count); non-trivial = a number outside (-100,100) or not integral, a non-ASCII string, nil, or a container of depth >= 2 / with an empty or nil part / holding such a number or string; distinct by case JSON",
-	Quick:    9000,
+	Quick:    22000,
 	Thorough: 110000,
 	Gen: func(t *rapid.T) goCase {
 		d := m15.GenTop(t)
@@ -860,7 +860,7 @@ func sameNumber(x float64, v reflect.Value) string {
 var jsFacet = harness.Register(&harness.Facet[jsCase]{
 	Name: "js-values",
 	Rule: "rapid: a JavaScript value from the pools - boundary doubles written as float literals, integer/hex literals (incl. non-double ones below 2^63), results of |0, >>>0, .length; numeric-looking and four-alphabet strings built as literals, by concatenation or String.fromCharCode; booleans, null, undefined; objects, arrays, functions, Date/RegExp/Error, wrapper objects, built-ins, and objects whose valueOf/toString return every primitive kind, an object, throw, or are not callable (logging each call); oracle: predicates and Class() against typeof / Object.prototype.toString in the same runtime, ToFloat/ToInteger/ToString/ToBoolean/IsNaN against Number/String/Boolean/isNaN in the same runtime incl. which converters run, errors iff the language throws, plus the lib/es5 model and Export for primitives; non-trivial = not a small integer / not an ASCII non-numeric string; distinct by case JSON",
-	Quick:    8000,
+	Quick:    20000,
 	Thorough: 80000,
 	Gen:      func(t *rapid.T) jsCase { return jsCase{V: m15.GenJSVal(t)} },
 	Check:    checkJS,
@@ -1056,7 +1056,7 @@ func checkExport(c exportCase) harness.Outcome {
 var exportFacet = harness.Register(&harness.Facet[exportCase]{
 	Name: "js-export",
 	Rule: "rapid: JSON-like data (null, undefined, booleans, boundary doubles, integer literals up to 2^53, four-alphabet strings, arrays incl. holes and homogeneous runs, objects with odd keys) to depth 4, built by a literal, by JSON.parse, or imperatively (index assignment, length=); oracle: Export is structurally equal to the data (null/undefined -> nil, numbers by exact value whatever the Go kind, arrays as slices typed or not, objects as map[string]interface{} without undefined-valued keys) and MarshalJSON denotes the JSON.stringify tree of the data; non-trivial = a container; distinct by case JSON",
-	Quick:    6000,
+	Quick:    15000,
 	Thorough: 70000,
 	Gen: func(t *rapid.T) exportCase {
 		route := rapid.SampledFrom([]string{"literal", "literal", "parse", "imperative"}).Draw(t, "route")
